@@ -4,8 +4,8 @@ D=$1; ID=$2
 for f in $D/OUT/r*.diff; do
   k=$(basename $f .diff)
   [ -s $f ] || continue
-  cp $f /verif/controls/quiet/$ID-$k.diff
-  python3 - "$D/OUT/$k.txt" "/verif/controls/quiet/$ID-$k.json" <<'PY'
+  cp $f ${VERIF_HOME:-/verif}/controls/quiet/$ID-$k.diff
+  python3 - "$D/OUT/$k.txt" "${VERIF_HOME:-/verif}/controls/quiet/$ID-$k.json" <<'PY'
 import sys, json
 try:
     what = open(sys.argv[1]).read().strip()
@@ -14,4 +14,4 @@ except Exception:
 json.dump({'checks': ['C%02d' % i for i in range(1, 21)], 'what': what, 'origin': 'behaviour-preserving refactoring written by a sub-agent that saw only the source (57 tests pass with it)'}, open(sys.argv[2], 'w'), indent=1)
 PY
 done
-ls /verif/controls/quiet | wc -l
+ls ${VERIF_HOME:-/verif}/controls/quiet | wc -l
